@@ -222,7 +222,8 @@ def finish(prop, tier, seed, mod, plan, results, shard_errors, wall) -> int:
     # evidence/ describes /repo itself; runs against a scratch copy (self-test, seeded changes:
     # VF_REPO=<worktree>) must not overwrite it
     observed = os.path.realpath(os.environ.get("VF_REPO", "/repo"))
-    edir = ROOT / "evidence" if observed == os.path.realpath("/repo") else ROOT / ".work" / "evidence-scratch"
+    scratch = observed != os.path.realpath("/repo") or bool(os.environ.get("VF_COVERAGE_DIR"))  # reach measurement runs are slowed
+    edir = ROOT / ".work" / "evidence-scratch" if scratch else ROOT / "evidence"
     edir.mkdir(parents=True, exist_ok=True)
     (edir / f"{prop}.json").write_text(json.dumps(evidence, indent=1, default=repr) + "\n")
 
